@@ -70,7 +70,7 @@ def _replay_chunk(args):
     base, lines, const, seed, thorough = args
     out = []
     agg = {'cells': 0, 'nan': 0, 'fitted': 0, 'compares': 0, 'nontriv': 0, 'var_plain': 0, 'var_corrected': 0,
-           'var_fixed': 0, 'method_sensitive': 0, 'select_sensitive': 0, 'testset_cells': 0, 'testset_perturbed': 0}
+           'var_fixed': 0, 'method_sensitive': 0, 'select_sensitive': 0, 'testset_cells': 0, 'testset_perturbed': 0, 'fixed_resampled': 0}
     for k, line in enumerate(lines):
         i = base + k
         rec = json.loads(line)
@@ -147,6 +147,9 @@ def random_rc(rng, nr, nc, thorough):
     bt = [(True, True), (True, False), (False, True)][int(rng.integers(0, 3))]
     if fam == 'fixed':
         rc.update(N=1, byR='index', byP='index', plR=9, plP=9)
+        if rng.integers(0, 3):
+            # the stack handed to eval_fixed is a bootstrap sample (RDMs and 'index' values repeated)
+            rc.update(bootR=True, byR=str(rng.choice(['index', 'subj'])))
     elif fam == 'testset':
         if bt[1] and up < 6:
             bt = (True, False)          # >= 3 condition groups must stay undrawn: hopeless below 6 groups
@@ -202,6 +205,9 @@ def sweep_rcs(nr, nc, thorough):
     for ncv in (1, 2):
         out.append(dict(base, routine='dual', bootR=True, bootP=True, cv='kfold', nCv=ncv, kR=2, kP=1, nM=2, N=min(N, 8),
                         byR='index', byP='index'))
+    # eval_fixed on a resampled stack (repeated RDMs / 'index' values): dof = RDMs of the stack - 1
+    for by in ('index', 'subj', 'index'):
+        out.append(dict(base, routine='fixed', bootR=True, bootP=False, N=1, byR=by, byP='index', plR=9, plP=9))
     return out
 
 
@@ -325,8 +331,8 @@ def record_and_validate(ctx, const, n, thorough, label):
     stat = {'testset_ok_samples': 0, 'nan_samples': 0, 'ok_samples': 0, 'var_checked': 0, 'grouped': 0, 'unique': 0, 'method_sensitive': 0, 'dof_cond_smaller': 0}
     for idx, rc, var, res in results:
         ctx.count(1)
-        for q in ('nan_samples', 'ok_samples', 'method_sensitive', 'dof_cond_smaller'):
-            stat[q] += res['stats'].get(q, 0)
+        for q in ('nan_samples', 'ok_samples', 'method_sensitive', 'dof_cond_smaller', 'fixed_resampled'):
+            stat[q] = stat.get(q, 0) + res['stats'].get(q, 0)
         if rc['routine'] == 'testset':
             stat['testset_ok_samples'] += res['stats'].get('ok_samples', 0)
         if res['stats'].get('var_kind') in ('plain', 'corrected', 'fixed'):
@@ -394,6 +400,8 @@ def record_and_validate(ctx, const, n, thorough, label):
                           {'const': const, 'rc': rc, 'variant': var, 'events': [e['e'] for e in traces[t - 1]]})
         if t in dofbad:
             cls = 'grouped-descriptor' if EP.grouped(rc, const['NR'], const['NC']) else 'unique-descriptor'
+            if rc['routine'] == 'fixed':
+                cls = 'resampled-stack' if rc['bootR'] else 'plain-stack'
             ctx.violation(f'C04/e/dof/{cls}/{name}', 'dof is not (number of resampled units - 1)',
                           {'const': const, 'rc': rc, 'diag': dofbad[t]})
     return len(traces), stat
@@ -497,6 +505,9 @@ def run(ctx):
     for nm in ('eval_bootstrap', 'bootstrap_crossval', 'eval_dual_bootstrap', 'eval_dual_bootstrap_random'):
         if not tot.get('dofP_' + nm):
             raise MachineryError(f'vacuous dof rule: no replay of {nm} with fewer condition groups than RDM groups')
+    # eval_fixed was replayed on stacks with repeated RDMs (dof = RDMs of the stack - 1, not distinct 'index' values - 1)
+    if not tot.get('fixed_resampled'):
+        raise MachineryError(f'vacuous dof rule for eval_fixed: no resampled stack with a repeated RDM: {tot}')
     # test-set routines: evaluated cells and perturbation replays happened
     if not tot.get('testset_cells') or not tot.get('testset_perturbed'):
         raise MachineryError(f'vacuous test-set replay: {tot}')
@@ -519,6 +530,6 @@ def run(ctx):
     ctx.extra['recorded_stats'] = st
     if not st.get('nan_samples') or not st.get('ok_samples') or not st.get('var_plain') or not st.get('var_corrected') \
             or not st.get('grouped') or not st.get('unique') or not st.get('method_sensitive') or not st.get('dof_cond_smaller') \
-            or not st.get('testset_ok_samples'):
+            or not st.get('testset_ok_samples') or not st.get('fixed_resampled'):
         raise MachineryError(f'vacuous recorded executions: {st}')
     probes(ctx)
